@@ -718,6 +718,259 @@ def fuse_wrappers(trees, unknown, report):
     return changed
 
 
+# ------------------------------------------------------------------------------------------------ E. objects
+def eliminate_config_objects(trees, report, unknown=None):
+    """A new class whose instances only carry values fixed at construction (fields assigned in `__init__` and
+    never rebound) and are only ever created to have methods called on them is a group of functions that take the
+    fields as leading parameters:
+        class K: def __init__(self, a, b): self.a = a; self.t = {}            def K__m(a, t, x): .. a .. K__n(a, t, y)
+                 def m(self, x): .. self.a .. self.n(y)                 ==>
+        K(e1, e2).m(z)                                                        K__m(e1, {}, z)
+        v = K(e1, e2); .. v.m(z) ..                                           v__a = e1; v__t = {}; .. K__m(v__a, v__t, z) ..
+    Mutable fields keep their identity (the same container object is passed on), which is all a method can observe
+    of an object whose fields are never rebound."""
+    inv = load_inventory()
+    if inv is None:
+        return set()
+    changed = set()
+    for rel, tree in list(trees.items()):
+        known = set(inv.get("globals", {}).get(rel, ()))
+        if rel not in inv.get("globals", {}):
+            continue
+        for K in [s for s in tree.body if isinstance(s, ast.ClassDef) and s.name not in known]:
+            if K.bases or K.decorator_list or K.keywords:
+                continue
+            methods = {}
+            ok = True
+            for st in K.body:
+                if isinstance(st, ast.FunctionDef):
+                    if st.decorator_list or st.args.vararg or st.args.kwarg or st.args.posonlyargs or not st.args.args:
+                        ok = False
+                    methods[st.name] = st
+                elif isinstance(st, ast.Expr) and isinstance(st.value, ast.Constant):
+                    continue
+                elif isinstance(st, ast.Pass) or (isinstance(st, ast.AnnAssign) and st.value is None):
+                    continue
+                elif isinstance(st, ast.Assign) and all(isinstance(t, ast.Name) and t.id == "__slots__" for t in st.targets):
+                    continue
+                else:
+                    ok = False
+            if not ok or not methods or any(n.startswith("__") and n != "__init__" for n in methods):
+                continue
+            init = methods.get("__init__")
+            fields, inits, iparams = [], {}, []
+            if init is not None:
+                sname = init.args.args[0].arg
+                iparams = [a.arg for a in init.args.args[1:] + init.args.kwonlyargs]
+                for st in _strip_doc(init.body):
+                    if isinstance(st, ast.Pass):
+                        continue
+                    if isinstance(st, ast.AnnAssign) and st.value is not None:
+                        tgt, val = st.target, st.value
+                    elif isinstance(st, ast.Assign) and len(st.targets) == 1:
+                        tgt, val = st.targets[0], st.value
+                    else:
+                        ok = False
+                        break
+                    if not (isinstance(tgt, ast.Attribute) and isinstance(tgt.value, ast.Name) and tgt.value.id == sname) or tgt.attr in inits:
+                        ok = False
+                        break
+                    if any(isinstance(x, ast.Name) and x.id == sname for x in ast.walk(val)):
+                        ok = False
+                        break
+                    fields.append(tgt.attr)
+                    inits[tgt.attr] = val
+            if not ok:
+                continue
+            other = {n: m for n, m in methods.items() if n != "__init__"}
+            if not other or set(fields) & set(other):
+                continue
+            # methods: self only as self.<field> (load) or self.<method>(..)
+            for mname, m in other.items():
+                sname = m.args.args[0].arg
+                pm = {}
+                for n in ast.walk(m):
+                    for c in ast.iter_child_nodes(n):
+                        pm[id(c)] = n
+                for n in ast.walk(m):
+                    if isinstance(n, ast.Name) and n.id == sname:
+                        par = pm.get(id(n))
+                        if not (isinstance(par, ast.Attribute) and par.value is n):
+                            ok = False
+                        elif par.attr in fields:
+                            if not isinstance(par.ctx, ast.Load):
+                                ok = False
+                        elif par.attr in other:
+                            gp = pm.get(id(par))
+                            if not (isinstance(gp, ast.Call) and gp.func is par):
+                                ok = False
+                        else:
+                            ok = False
+                    if isinstance(n, (ast.FunctionDef, ast.Lambda)) and n is not m and any(isinstance(x, ast.Name) and x.id == sname for x in ast.walk(n)):
+                        ok = False
+            if not ok:
+                continue
+            # uses of the class name: K(..).m(..)  or  v = K(..) with v only as receiver of method calls
+            uses = []
+            for r2, t2 in trees.items():
+                pm2 = {}
+                for n in ast.walk(t2):
+                    for c in ast.iter_child_nodes(n):
+                        pm2[id(c)] = n
+                for n in ast.walk(t2):
+                    if isinstance(n, ast.Name) and n.id == K.name:
+                        uses.append((r2, t2, n, pm2))
+                    elif isinstance(n, ast.alias) and n.name == K.name:
+                        ok = False
+            plans = []
+            for r2, t2, n, pm2 in uses:
+                call = pm2.get(id(n))
+                if not (isinstance(call, ast.Call) and call.func is n):
+                    # annotations are fine
+                    q = call
+                    annotated = False
+                    while q is not None:
+                        if isinstance(q, ast.arg) or isinstance(q, ast.AnnAssign):
+                            annotated = True
+                        q = pm2.get(id(q))
+                    if annotated or isinstance(call, (ast.arg,)):
+                        continue
+                    ok = False
+                    break
+                if init is None:
+                    if call.args or call.keywords:
+                        ok = False
+                        break
+                    bind = {}
+                else:
+                    bind = _bind_simple(ast.FunctionDef(name="i", args=ast.arguments(posonlyargs=[], args=init.args.args[1:], vararg=None, kwonlyargs=init.args.kwonlyargs, kw_defaults=init.args.kw_defaults, kwarg=None, defaults=init.args.defaults), body=[], decorator_list=[]), call)
+                    if bind is None:
+                        ok = False
+                        break
+                par = pm2.get(id(call))
+                if isinstance(par, ast.Attribute) and par.value is call and par.attr in other and isinstance(pm2.get(id(par)), ast.Call) and pm2[id(par)].func is par:
+                    plans.append(("direct", r2, t2, call, pm2[id(par)], par.attr, bind, pm2))
+                elif isinstance(par, ast.Assign) and par.value is call and len(par.targets) == 1 and isinstance(par.targets[0], ast.Name):
+                    plans.append(("local", r2, t2, call, par, par.targets[0].id, bind, pm2))
+                else:
+                    ok = False
+                    break
+            if not ok or not plans:
+                continue
+            # parameters used more than once in the field initialisers must be given as simple expressions
+            def field_values(bind):
+                vals = {}
+                for f in fields:
+                    e = copy.deepcopy(inits[f])
+                    e = _SubstLoads(bind).visit(e)
+                    vals[f] = e
+                return vals
+
+            counts = {}
+            for f in fields:
+                for x in ast.walk(inits[f]):
+                    if isinstance(x, ast.Name) and x.id in iparams:
+                        counts[x.id] = counts.get(x.id, 0) + 1
+            for kind, r2, t2, call, site, name, bind, pm2 in plans:
+                for pn, e in bind.items():
+                    if counts.get(pn, 0) != 1 and not _simple_arg(e):
+                        ok = False
+                # evaluation order: fields are computed in __init__ order = parameter order for plain copies
+                order_plain = [inits[f].id for f in fields if isinstance(inits[f], ast.Name) and inits[f].id in iparams]
+                if order_plain != [p_ for p_ in iparams if p_ in order_plain] and any(not _simple_arg(e) for e in bind.values()):
+                    ok = False
+            if not ok:
+                continue
+            # local plans: v is assigned once and used only as v.m(..)
+            for kind, r2, t2, call, site, name, bind, pm2 in plans:
+                if kind != "local":
+                    continue
+                fn = _enclosing_function(t2, site)
+                if fn is None:
+                    ok = False
+                    break
+                occ = [x for x in ast.walk(fn) if isinstance(x, ast.Name) and x.id == name]
+                if sum(1 for x in occ if isinstance(x.ctx, (ast.Store, ast.Del))) != 1:
+                    ok = False
+                    break
+                for x in occ:
+                    if isinstance(x.ctx, ast.Load):
+                        a_ = pm2.get(id(x))
+                        c_ = pm2.get(id(a_)) if a_ is not None else None
+                        if not (isinstance(a_, ast.Attribute) and a_.value is x and a_.attr in other and isinstance(c_, ast.Call) and c_.func is a_):
+                            ok = False
+                if any(f"{name}__{f}" in {y.id for y in ast.walk(fn) if isinstance(y, ast.Name)} for f in fields):
+                    ok = False
+            if not ok:
+                continue
+            # ---- rewrite
+            fname = lambda m_: f"{K.name}__{m_}"
+            new_funcs = []
+            for mname, m in other.items():
+                sname = m.args.args[0].arg
+                taken = {x.id for x in ast.walk(m) if isinstance(x, ast.Name)} | {a.arg for a in ast.walk(m.args) if isinstance(a, ast.arg)}
+                fmap = {f: (f if f not in taken else f"{f}__f") for f in fields}
+
+                class M(ast.NodeTransformer):
+                    def visit_Attribute(self, n):
+                        self.generic_visit(n)
+                        if isinstance(n.value, ast.Name) and n.value.id == sname and n.attr in fmap:
+                            return ast.copy_location(ast.Name(id=fmap[n.attr], ctx=ast.Load()), n)
+                        return n
+
+                    def visit_Call(self, n):
+                        if isinstance(n.func, ast.Attribute) and isinstance(n.func.value, ast.Name) and n.func.value.id == sname and n.func.attr in other:
+                            n.args = [ast.Name(id=fmap[f], ctx=ast.Load()) for f in fields] + [self.visit(a) for a in n.args]
+                            n.keywords = [ast.keyword(arg=k.arg, value=self.visit(k.value)) for k in n.keywords]
+                            n.func = ast.copy_location(ast.Name(id=fname(n.func.attr), ctx=ast.Load()), n.func)
+                            return n
+                        self.generic_visit(n)
+                        return n
+
+                g = copy.deepcopy(m)
+                g.name = fname(mname)
+                g.args.args = [ast.arg(arg=fmap[f], annotation=None) for f in fields] + g.args.args[1:]
+                g.body = [M().visit(s) for s in g.body]
+                ast.copy_location(g, m)
+                ast.fix_missing_locations(g)
+                new_funcs.append(g)
+            for kind, r2, t2, call, site, name, bind, pm2 in plans:
+                vals = field_values(bind)
+                if kind == "direct":
+                    site.args = [vals[f] for f in fields] + list(site.args)
+                    site.func = ast.copy_location(ast.Name(id=fname(name), ctx=ast.Load()), site.func)
+                    ast.fix_missing_locations(site)
+                else:
+                    fn = _enclosing_function(t2, site)
+                    seq = [ast.copy_location(ast.Assign(targets=[ast.Name(id=f"{name}__{f}", ctx=ast.Store())], value=vals[f]), site) for f in fields]
+                    for parent in ast.walk(fn):
+                        for f_ in ("body", "orelse", "finalbody"):
+                            lst = getattr(parent, f_, None)
+                            if isinstance(lst, list) and any(x is site for x in lst):
+                                i = next(k for k, x in enumerate(lst) if x is site)
+                                lst[i:i + 1] = seq or [ast.copy_location(ast.Pass(), site)]
+                    for x in list(ast.walk(fn)):
+                        if isinstance(x, ast.Call) and isinstance(x.func, ast.Attribute) and isinstance(x.func.value, ast.Name) and x.func.value.id == name and x.func.attr in other:
+                            x.args = [ast.Name(id=f"{name}__{f}", ctx=ast.Load()) for f in fields] + list(x.args)
+                            x.func = ast.copy_location(ast.Name(id=fname(x.func.attr), ctx=ast.Load()), x.func)
+                    ast.fix_missing_locations(fn)
+                changed.add(r2)
+            i = next(k for k, x in enumerate(tree.body) if x is K)
+            tree.body[i:i + 1] = new_funcs
+            if unknown is not None:
+                for g in new_funcs:
+                    unknown.add((rel, g.name))
+            # other modules that construct K need the new names: analysis resolves names by import table, so add them
+            for r2, t2 in trees.items():
+                if r2 != rel and r2 in changed:
+                    for st in ast.walk(t2):
+                        if isinstance(st, ast.ImportFrom) and any(al.name == K.name for al in st.names):
+                            st.names = [al for al in st.names if al.name != K.name] + [ast.alias(name=g.name, asname=None) for g in new_funcs]
+            changed.add(rel)
+            report.append(("eliminated-object", f"{rel}:{K.name} -> {[g.name for g in new_funcs]}"))
+    return changed
+
+
 # ------------------------------------------------------------------------------------------------ D. import time
 def _bind_simple(fnode, call):
     """{param: argument expression} for a call that gives every parameter (defaults used), or None"""
@@ -901,6 +1154,10 @@ def undo(trees, unknown, report):
     for rel in a:
         canonicalise(trees[rel])
     changed |= a
+    e = eliminate_config_objects(trees, report, unknown if isinstance(unknown, set) else None)
+    for rel in e:
+        canonicalise(trees[rel])
+    changed |= e
     if unknown:
         b = flatten_tuple_params(trees, unknown, report)
         for rel in b:
